@@ -1387,42 +1387,89 @@ def r10(ctx):
     g = P.func(U + ".insert_tokens_after")
     t = norm(g.node)
     ctx.look(3)
+    from ..util import atom_mapper, reach_condition
     from ..expect import contains
-    SK = """
-        def insert_tokens_after(tokens, pattern, tokens_to_add, *, kind=None, join_operator=None, no_join_for_operators=True):
-            tokens = list(tokens)
-            for i, token in enumerate(tokens):
-                split_tokens = list(token.split(pattern, after=True))
-                for j, split_token in enumerate(split_tokens):
-                    %s
-                    m = pattern.search(split_token.token)
-                    if m and m.span()[1] == len(split_token.token):
-                        %s
-                        if join_operator:
-                            next_token = None
-                            if j < len(split_tokens) - 1:
-                                next_token = split_tokens[j + 1]
-                            elif i < len(tokens) - 1:
-                                next_token = tokens[i + 1]
-                            ...
-    """
-    ok, why_ = contains(P, g, SK % ("yield split_token", "yield from tokens_to_add"))
+    # read off the path summaries: which tokens are yielded under which conditions (nesting, guard clauses, a None sentinel or an
+    # `else: continue` for "no next token" all give the same summaries)
+    try:
+        gouts = sym.outcomes(g.node)
+    except sym.Unmodelled as e:
+        raise AnalysisError(f"C01.R10: insert_tokens_after cannot be summarised: {e}")
+    glps = sym.loops_of(gouts)
+    outer_l = [l for l in glps if sym.pm("enumerate(ANY_t)", l._sym_head) is not None and "split(" not in norm(l._sym_head)]
+    inner_l = [l for l in glps if sym.pm("enumerate(ANY_s)", l._sym_head) is not None and ".split(" in norm(l._sym_head)]
+    ok, ok_join, nx = False, False, False
+    if len(outer_l) == 1 and len(inner_l) == 1 and isinstance(outer_l[0]._sym_orig.target, ast.Tuple) and isinstance(inner_l[0]._sym_orig.target, ast.Tuple):
+        T_ = sym.pm("enumerate(ANY_t)", outer_l[0]._sym_head)["ANY_t"]
+        S_ = sym.pm("enumerate(ANY_s)", inner_l[0]._sym_head)["ANY_s"]
+        i_, tok_ = (norm(x) for x in outer_l[0]._sym_orig.target.elts)
+        j_, piece = (norm(x) for x in inner_l[0]._sym_orig.target.elts)
+        split_ok = sym.pm_any([f"list({tok_}.split(ANY_p, after=True))", f"[*{tok_}.split(ANY_p, after=True)]", f"{tok_}.split(ANY_p, after=True)"],
+                              ast.parse(S_, mode="eval").body) is not None
+        ys = [o for o in gouts if o.kind in ("yield", "yield_from") and len(o.loops) == 2]
+        pieces = [o for o in ys if o.kind == "yield" and norm(o.value) == piece]
+        adds = [o for o in ys if o.kind == "yield_from" and norm(o.value) == "tokens_to_add"]
+        joins = [o for o in ys if o.kind == "yield" and sym.pm("Token(join_operator, kind=Token.Kind.OPERATOR)", o.value) is not None]
+
+        def ends_with_match(o):
+            cs = {(norm(c), pol) for c, pol in o.conds}
+            return any(pol and re.fullmatch(r"(.+)\.search\(%s\.token\)\.end\(\) == len\(%s\.token\)" % (re.escape(piece), re.escape(piece)), t_) for t_, pol in cs)
+        # every piece is passed on; the insertion follows exactly the pieces that END with the match
+        ok = split_ok and bool(pieces) and bool(adds) and all(ends_with_match(o) for o in adds) and not any(ends_with_match(o) for o in pieces)
+        # the join operator: grouped by which token is looked at as "next"
+        groups = {}
+        pre_ok = bool(joins)
+        want_x = set()
+        lists_of = {}
+        for o in joins:
+            # the two sequences as THIS path spells them (an earlier branch may have rebound `pattern`)
+            To = sym.pm("enumerate(ANY_t)", o.loops[0]._sym_head)["ANY_t"]
+            So = sym.pm("enumerate(ANY_s)", o.loops[1]._sym_head)["ANY_s"]
+            want_x |= {f"{So}[{j_} + 1]", f"{To}[{i_} + 1]"}
+            lists_of[id(o)] = (So, To)
+            cs = [(norm(c), pol, c) for c, pol in o.conds]
+            pre_ok = pre_ok and ("join_operator", True) in {(t_, p_) for t_, p_, _ in cs} and ends_with_match(o)
+            xs = sorted({m_.group(1) for t_, _p, _c in cs for m_ in re.finditer(r"((?:list\()?[\w\.\(\)\[\], =\*]*?\[[ij] \+ 1\])\.kind is", t_)})
+            X = xs[0] if len(xs) == 1 else None
+            rel = [(c, pol) for t_, pol, c in cs if X is not None and (X in t_ or "no_join_for_operators" in t_)]
+            groups.setdefault(X, []).append((o, rel))
+        ok_join = pre_ok and set(groups) == want_x
+        for X, items in groups.items():
+            if X is None:
+                ok_join = False
+                continue
+            am = atom_mapper({f"{X} is not None": 0, f"{X}.kind is not Token.Kind.OPERATOR": 1, "no_join_for_operators is False": 2,
+                              "isinstance(no_join_for_operators, set)": 3, f"{X}.token not in no_join_for_operators": 4})
+            tabs = []
+            for o, rel in items:
+                conj = [c if pol else ast.UnaryOp(op=ast.Not(), operand=c) for c, pol in rel]
+                e_ = conj[0] if len(conj) == 1 else ast.BoolOp(op=ast.And(), values=conj)
+                tabs.append(truth_table(e_, am, 5) if conj else None)
+            if not all(isinstance(t_, tuple) for t_ in tabs):
+                ok_join = False
+                continue
+            tested_none = any(f"{X} is None" in norm(c) or f"{X} is not None" in norm(c) for _o, rel in items for c, _p in rel)
+            got = tuple(any(t_[k] for t_ in tabs) for k in range(32))
+            want = tuple((n_ or not tested_none) and (k or f_ or (s_ and m_)) for n_, k, f_, s_, m_ in itertools.product([False, True], repeat=5))
+            ok_join = ok_join and got == want
+        # which token is "next": the following piece of the same token when there is one, else the following token when there is one
+        def has(o, text, pol):
+            return (text, pol) in {(norm(c), p_) for c, p_ in o.conds}
+        nx = bool(joins)
+        for X, items in groups.items():
+            for o, _r in items:
+                So, To = lists_of[id(o)]
+                JA, IA = f"{j_} < len({So}) - 1", f"{i_} < len({To}) - 1"
+                if X == f"{So}[{j_} + 1]":
+                    nx = nx and has(o, JA, True)
+                elif X == f"{To}[{i_} + 1]":
+                    nx = nx and has(o, JA, False) and has(o, IA, True)
+                else:
+                    nx = False
     ctx.check(ok, "C01.R10", "insert_tokens_after inserts directly after each (sub-)token that ends with the pattern", g.where, ctx.construct(g, text="insert position"),
               "tokens must be split after the pattern and the insertion made after a piece ending in the match")
-    from ..util import atom_mapper, reach_condition
-    jy = [n for n in walk_no_nested(g.node) if isinstance(n, ast.Expr) and isinstance(n.value, ast.Yield) and
-          sym.pm("Token(join_operator, kind=Token.Kind.OPERATOR)", n.value.value) is not None]
-    ok = False
-    if len(jy) == 1:
-        cond = reach_condition(P, jy[0], mention="next_token")
-        atom_j = atom_mapper({"next_token is not None": 0, "next_token.kind is not Token.Kind.OPERATOR": 1, "no_join_for_operators is False": 2,
-                              "isinstance(no_join_for_operators, set)": 3, "next_token.token not in no_join_for_operators": 4})
-        tj = truth_table(cond, atom_j, 5) if cond is not None else None
-        want = tuple(n_ and (k or f_ or (i and m_)) for n_, k, f_, i, m_ in itertools.product([False, True], repeat=5))
-        ok = tj == want
-    ctx.check(ok, "C01.R10", "the join operator is added iff a next token exists and it is not an excluded operator", g.where, ctx.construct(g, text="join condition"),
+    ctx.check(ok_join, "C01.R10", "the join operator is added iff a next token exists and it is not an excluded operator", g.where, ctx.construct(g, text="join condition"),
               "expected next ∧ (next is not an operator ∨ no_join is False ∨ (no_join is a set ∧ next ∉ no_join))")
-    nx, _w = contains(P, g, SK % ("pass", "pass"))
     ctx.check(nx, "C01.R10", "the next token is the following piece of the same token, else the following token", g.where, ctx.construct(g, text="next token"),
               "next-token lookup changed")
     skip = [n for n in ast.walk(g.node) if isinstance(n, ast.If) and "pattern.search(token.token)" in norm(n.test)]
@@ -1478,23 +1525,44 @@ def r10(ctx):
     # Token.split keeps the text in order
     sp = P.method("formulaic.parser.types.token.Token", "split")
     t = norm(sp.node)
-    ok, _w = contains(P, sp, """
-        def split(self, pattern, after=False, before=False):
-            ...
-            last_index = 0
-            separators = pattern.finditer(self.token)
-            def get_next_token(next_index):
-                return next_index, self.copy_with_attrs(token=self.token[last_index:next_index])
-            for separator in separators:
-                if before:
-                    last_index, new_token = get_next_token(separator.span()[0])
-                    yield new_token
-                if after:
-                    last_index, new_token = get_next_token(separator.span()[1])
-                    yield new_token
-            if last_index < len(self.token):
-                yield get_next_token(len(self.token))[1]
-    """)
+    # on the normal form (the slicing helper, a closure today, stands inline there) and its path summaries: every piece is
+    # self.token[<end of the previous piece> : <match boundary>], the boundary becomes the new start, and the rest of the text follows
+    from ..expect import _normalise_function
+    spn = _normalise_function(P, sp, sp.node, already=P.normalizer is not None)
+    try:
+        so = sym.outcomes(spn)
+    except sym.Unmodelled as e:
+        raise AnalysisError(f"C01.R10: Token.split cannot be summarised: {e}")
+    slps = [l for l in sym.loops_of(so) if ".finditer(self.token)" in norm(l._sym_head)]
+    ok = len(slps) == 1
+    if ok:
+        lp_ = slps[0]
+        sep = norm(lp_._sym_orig.target)
+        PIECE = "self.copy_with_attrs(token=self.token[ANY_lo:ANY_hi])"
+
+        def run(before, after):
+            """(pieces yielded, start of the next piece) for one match under the two flags."""
+            res = []
+            for k, effs, env_, o in sym.iteration_effects(so, lp_, {"before": before, "after": after}):
+                if k in ("fall", "continue"):
+                    li = sym.value_of(o, "last_index")
+                    res.append(("end", norm(li) if li is not None else "last_index"))
+                elif k == "yield":
+                    b_ = sym.pm(PIECE, sym.simplify(o.value, {"before": before, "after": after}))
+                    res.append(("piece", (b_["ANY_lo"], b_["ANY_hi"]) if b_ else None))
+            return res
+        st_, en_ = f"{sep}.start()", f"{sep}.end()"
+        want = {(True, True): [("piece", ("last_index", st_)), ("piece", (st_, en_)), ("end", en_)],
+                (True, False): [("piece", ("last_index", st_)), ("end", st_)],
+                (False, True): [("piece", ("last_index", en_)), ("end", en_)]}
+        for (bf, af), w_ in want.items():
+            got = run(bf, af)
+            if sorted(map(repr, got)) != sorted(map(repr, w_)):
+                ok = False
+        tail = [o for o in so if o.kind == "yield" and not o.loops]
+        rest_ok = bool(tail) and all(sym.pm_any([f"self.copy_with_attrs(token=self.token[last_index:len(self.token)])", "self.copy_with_attrs(token=self.token[last_index:])"], o.value) is not None
+                                     and ("last_index < len(self.token)", True) in {(norm(c), p_) for c, p_ in o.conds} for o in tail if norm(o.value) != "self")
+        ok = ok and rest_ok
     ctx.check(ok, "C01.R10", "Token.split cuts the token text at the match boundaries without losing characters", sp.where, ctx.construct(sp, text="split"),
               "Token.split changed shape")
 
